@@ -14,4 +14,5 @@ theorem sk_resetStream : Generated.sk_server_handler_resetStream = Expected.sk_s
 /-- runStream cancels the stream's context (deferred handler.cancel()) BEFORE unregisterStream asks for the registry lock -/
 theorem sk_runStream : Generated.sk_server_handler_runStream = Expected.sk_server_handler_runStream := by decide
 theorem sk_unregisterStream : Generated.sk_server_handler_unregisterStream = Expected.sk_server_handler_unregisterStream := by decide
+theorem sk_server_handler_processUnaryRpc : Generated.sk_server_handler_processUnaryRpc = Expected.sk_server_handler_processUnaryRpc := by decide
 end Goat.Tie.C12
